@@ -1639,11 +1639,18 @@ namespace gch
             &&  std::is_integral<to>::value;
       };
 
+      // Note: A derived-to-base pointer conversion may adjust the address (a base subobject at a
+      //       non-zero offset), so only conversions which cannot change the representation qualify:
+      //       adding cv-qualifiers to the pointee, and conversions to (cv) void *.
       template <typename From, typename To>
       struct is_convertible_pointer
         : bool_constant<std::is_pointer<From>::value
                     &&  std::is_pointer<To>::value
-                    &&  std::is_convertible<From, To>::value>
+                    &&  std::is_convertible<From, To>::value
+                    &&  (  std::is_same<
+                             typename std::remove_cv<typename std::remove_pointer<From>::type>::type,
+                             typename std::remove_cv<typename std::remove_pointer<To>::type>::type>::value
+                       ||  std::is_void<typename std::remove_pointer<To>::type>::value)>
       { };
 
       // Memcpyable assignment.
